@@ -16,7 +16,15 @@ use std::time::{Duration, Instant};
 pub struct PropSpec {
     pub kind: String,
     pub name: String,
+    #[serde(default)]
     pub sat: Vec<u32>,
+    /// "list" (default: `sat`), "all", "none", "mod" (s % m == r) -- formulas for the big graphs
+    #[serde(default)]
+    pub mode: String,
+    #[serde(default)]
+    pub m: u32,
+    #[serde(default)]
+    pub r: u32,
 }
 
 #[derive(Clone, Debug, Deserialize, Serialize)]
@@ -73,7 +81,14 @@ impl TableModel {
         if self.g.poison != 0 && s == self.g.poison {
             panic!("poisoned node evaluated");
         }
-        self.g.props[i].sat.contains(&s)
+        let p = &self.g.props[i];
+        match p.mode.as_str() {
+            "" | "list" => p.sat.contains(&s),
+            "all" => true,
+            "none" => false,
+            "mod" => s % p.m == p.r,
+            m => panic!("prop mode {m}"),
+        }
     }
     pub fn succs(&self, s: u32) -> Vec<u32> {
         let g = &self.g;
@@ -237,6 +252,9 @@ pub struct Cfg {
     /// use the logging chooser instead of UniformChooser
     #[serde(default)]
     pub log_chooser: bool,
+    /// capture the job-market event log of this run (requires --par 1)
+    #[serde(default)]
+    pub market_log: bool,
 }
 
 pub fn finish_of(f: &Finish) -> HasDiscoveries {
@@ -486,6 +504,9 @@ pub fn run_one(g: &Graph, cfg: &Cfg) -> Value {
         b = b.symmetry_fn(global_rep);
     }
     crate::hooks::set_perturb(cfg.perturb);
+    if cfg.market_log {
+        crate::hooks::start_capture();
+    }
     let spawn_panicked;
     let obs = {
         let r = catch_unwind(AssertUnwindSafe(|| match cfg.strategy.as_str() {
@@ -517,6 +538,7 @@ pub fn run_one(g: &Graph, cfg: &Cfg) -> Value {
         }
     };
     crate::hooks::set_perturb(0);
+    let market: Vec<Value> = if cfg.market_log { crate::hooks::stop_capture() } else { vec![] };
     let visits = std::mem::take(&mut *vlog.lock().unwrap());
     let chooser = std::mem::take(&mut *clog.lock().unwrap());
     let done = match obs {
@@ -531,7 +553,7 @@ pub fn run_one(g: &Graph, cfg: &Cfg) -> Value {
             "max_depth": 0, "discoveries": [], "disc_panicked": false, "assert_panicked": false,
             "handles_left": 0, "wall_ms": 0, "spawn_panicked": spawn_panicked}),
     };
-    json!({"cfg": cfg, "visits": visits, "chooser": chooser, "done": done})
+    json!({"cfg": cfg, "visits": visits, "chooser": chooser, "done": done, "market": market})
 }
 
 static RID: AtomicU64 = AtomicU64::new(0);
